@@ -28,7 +28,7 @@ KNOWN_TEXT = {
 # Findings met by this check that are not (yet) listed in known-findings.json.  Each is tolerated only through its switch in the
 # specifications (KF_<id>) / its counterexample signature.  DELETE an id here when its fix: commit lands (and make the repaired
 # design the one "as written": FixEmpty / FixAdjust in the MC_RangeLock_asis* configurations) or when it is entered as open.
-PROVISIONAL = {'F11', 'C18a', 'C18b'}
+PROVISIONAL = set()     # F11, C18a (fix: 800ac90) and C18b (fix: 084eec4) are repaired
 
 
 def tolerated(ctx):
